@@ -787,10 +787,20 @@ func (d *Decoder) processPropertyElt(ectx evaluationContext, startElement xml.St
 			}
 
 			if len(otherAttrList) == 0 && resourceAttr == nil && nodeIdAttr == nil && datatypeAttr == nil {
-				ot.triple.Object = rdf.Literal{
+				lit := rdf.Literal{
 					Datatype:    xsdiri.String_Datatype,
 					LexicalForm: "",
 				}
+
+				// [spec 7.2.21] o := literal(literal-value := "", literal-language := e.language)
+				if ectx.Language != nil {
+					lit.Datatype = rdfiri.LangString_Datatype
+					lit.Tag = rdf.LanguageLiteralTag{
+						Language: *ectx.Language,
+					}
+				}
+
+				ot.triple.Object = lit
 			} else {
 				if resourceAttr != nil {
 					ot.triple.Object = ectx.ResolveIRI((*resourceAttr).Value)
